@@ -291,9 +291,23 @@ class D18(Extra):
                 ('always_always', ('alwt', a, b, ('alwt', c_, d, p)), ('alwt', a + c_, b + d, p)),
                 ('once_once', ('oncet', a, b, ('oncet', c_, d, p)), ('oncet', a + c_, b + d, p))])
             out.append({'law': law, 'lhs': l, 'rhs': r, 'nv': 1, 'sigs': [dense.gen_signal(rng, maxn=7, stair=True)], 'n': 0})
+        # the unbounded laws with an operand that itself contains an unbounded operator of the same family (the visitors of the unbounded
+        # operators keep their running value in the visitor object: a nested one must not leave its value behind for the outer one)
+        P, Q = ('pred', 'gt', ('var', 0), ('const', 0)), ('pred', 'gt', ('var', 1), ('const', 0))
+        nested_past = [('and', P, ('once', Q)), ('once', P), ('hist', P), ('or', ('hist', Q), P), ('since', P, ('once', Q)), ('and', ('once', P), ('hist', Q))]
+        nested_fut = [('and', P, ('ev', Q)), ('ev', P), ('alw', P), ('or', ('alw', Q), P), ('and', ('ev', P), ('alw', Q))]
+        for _ in range(max(1, n // 20)):
+            for q in nested_past:
+                for (law, l, r) in [('not_once', ('not', ('once', q)), ('hist', ('not', q))), ('not_historically', ('not', ('hist', q)), ('once', ('not', q)))]:
+                    out.append({'law': law, 'lhs': l, 'rhs': r, 'nv': 2, 'sigs': gen_sigs(rng, 2, minn=3), 'n': 0, 'nested': 1})
+            for q in nested_fut:
+                for (law, l, r) in [('not_eventually_unbounded', ('not', ('ev', q)), ('alw', ('not', q))), ('not_always_unbounded', ('not', ('alw', q)), ('ev', ('not', q)))]:
+                    out.append({'law': law, 'lhs': l, 'rhs': r, 'nv': 2, 'sigs': gen_sigs(rng, 2, minn=3), 'n': 0, 'nested': 1})
         return out
 
     def features(self, c):
+        if c.get('nested'):
+            return ['dense', 'dense-law:' + c['law'], 'dense-law:nested-unbounded-operand']
         return ['dense', 'dense-law:' + c['law']]
 
     def online(self, c):
